@@ -269,7 +269,19 @@ Proof.
 Qed.
 
 (* ------------------------------------------------------------------ display_fits for every TCP port *)
-Lemma dec_len_ports : forallb (fun p => Zlength (z_dec (Z.of_nat p - 5901)) <=? 5) (seq 0 (Z.to_nat 65537)) = true.
+Fixpoint all_from (fuel : nat) (z : Z) (f : Z -> bool) : bool :=
+  match fuel with O => true | S k => f z && all_from k (z + 1) f end.
+
+Lemma all_from_spec : forall fuel z f, all_from fuel z f = true ->
+  forall x, z <= x < z + Z.of_nat fuel -> f x = true.
+Proof.
+  induction fuel as [|k IH]; intros z f H x Hx; [exfalso; lia|].
+  cbn [all_from] in H. apply andb_true_iff in H. destruct H as [H0 H1].
+  destruct (Z.eq_dec x z) as [->|Hne]; [exact H0|].
+  apply (IH (z + 1) f H1). lia.
+Qed.
+
+Lemma dec_len_ports : all_from (Z.to_nat 65537) (-1) (fun p => Zlength (z_dec (p - 5900)) <=? 5) = true.
 Proof. vm_compute. reflexivity. Qed.
 
 (* thisHost is char[255] (C20_THISHOST_SIZE, regenerated from rfb.h), the port a TCP port or -1:
@@ -278,11 +290,8 @@ Theorem display_fits_port : forall cfg,
   Zlength (host cfg) < C20_THISHOST_SIZE -> -1 <= port cfg <= 65535 -> display_fits cfg.
 Proof.
   intros cfg Hh Hp. unfold display_fits.
-  pose proof dec_len_ports as H. rewrite forallb_forall in H.
-  specialize (H (Z.to_nat (port cfg + 1))).
-  assert (Hin : In (Z.to_nat (port cfg + 1)) (seq 0 (Z.to_nat 65537))) by (apply in_seq; lia).
-  apply H in Hin. rewrite Z2Nat.id in Hin by lia.
-  replace (port cfg + 1 - 5901) with (port cfg - 5900) in Hin by lia.
+  pose proof (all_from_spec _ _ _ dec_len_ports (port cfg)) as H.
+  assert (Hin : Zlength (z_dec (port cfg - 5900)) <=? 5 = true) by (apply H; lia).
   apply Z.leb_le in Hin. unfold C20_THISHOST_SIZE, C20_STR_SIZE in *. lia.
 Qed.
 
@@ -301,8 +310,7 @@ Proof.
     assert (Hl : Z.succ (Z.of_nat k) <=? 0 = false) by (apply Z.leb_gt; lia).
     cbn [wx_loop]. rewrite Hl.
     assert (Hw : 0 + slice >=? timeout = false) by (rewrite Z.geb_leb; apply Z.leb_gt; lia).
-    rewrite Hw. cbn [wx_loop]. rewrite Hl. cbn [wx_loop]. rewrite Hl.
-    change (1 <=? 0) with false. cbv iota.
+    rewrite Hw. change (1 <=? 0) with false. cbv iota.
     replace (Z.succ (Z.of_nat k) - 1) with (Z.of_nat k) by lia.
     rewrite IH by assumption. f_equal. f_equal. lia.
 Qed.
